@@ -42,10 +42,25 @@ class _FloatToQ(ast.NodeTransformer):
     def visit_MatchValue(self, node):
         return node
 
+    def visit_BinOp(self, node):
+        self.generic_visit(node)
+        if isinstance(node.op, ast.Div):
+            return ast.copy_location(
+                ast.Call(func=ast.Name(id="__DIV__", ctx=ast.Load()),
+                         args=[node.left, node.right], keywords=[]), node)
+        return node
+
 
 def _Q(s):
-    f = Fraction(s)
-    return f.numerator if f.denominator == 1 else f
+    """a float literal of evo's source as the exact rational it denotes"""
+    return Fraction(s)
+
+
+def _DIV(a, b):
+    """true division with real-number semantics: int/int is exact"""
+    if type(a) is int and type(b) is int and b != 0:
+        return Fraction(a, b)
+    return a / b
 
 
 class _FloatMeta(type):
@@ -124,6 +139,7 @@ class _Finder(importlib.abc.MetaPathFinder, importlib.abc.Loader):
         code = compile(tree, fn, "exec")
         g = module.__dict__
         g["__Q__"] = _Q
+        g["__DIV__"] = _DIV
         g["float"] = sym_float
         g["int"] = sym_int
         g["round"] = sym_round
